@@ -145,9 +145,6 @@ class C19(Prop):
                 fails.append({"msg": "directory changed during replay"})
         return fails
 
-    def in_model_domain(self, case):
-        return True
-
     def nontrivial(self, case, ops, results):
         return any(r[0] == "obs" and r[2]["outcome"] in ("added", "updated", "passed", "failed:diff") for r in results)
 
